@@ -102,7 +102,7 @@ def gen_scene(rng, kindname):
     ctr = Ctr()
     bs = rng.choice(BATCHES if kindname in ("regular",) else [[3], [2, 2], [3, 2], [2]])
     names = None
-    if bs and rng.random() < 0.3 and kindname in ("regular", "tc"):
+    if bs and rng.random() < 0.3 and kindname in ("regular", "tc", "lazy"):
         names = ["x", "y", "w"][:len(bs)]
     dv = "cpu" if rng.random() < 0.3 and kindname in ("regular", "tc", "lazy") else None
     meta = [bs, dv, names, False]
@@ -190,7 +190,8 @@ def make_case(rng, point, scene, kindname, variant):
     S = scene["self"]
     bs, dv, nm, _ = S[2]
     nmem = len(scene["members"]) if kindname == "lazy" else 0
-    full_bs = ([nmem] + list(bs)) if kindname == "lazy" else list(bs)
+    sd = rng.randrange(0, len(bs) + 1) if kindname == "lazy" else 0          # the stack dim of a lazy self
+    full_bs = (list(bs[:sd]) + [nmem] + list(bs[sd:])) if kindname == "lazy" else list(bs)
     o = {"inplace": inplace, "default": has_default, "fe": fe, "con": con, "named": keymode != "plain",
          "nested_keys": keymode == "nested", "propagate": propagate,
          "leaf_tensor": True, "leaf_nont": leaf_mode in ("nontensor", "all"), "leaf_node": leaf_mode == "all"}
@@ -207,6 +208,21 @@ def make_case(rng, point, scene, kindname, variant):
         o["names"] = None
     else:
         o["names"] = ["p", "q", "r", "s"][:len(rbs)] if rng.random() < 0.8 or nm is None else list(nm[:len(rbs)])
+        if kindname == "lazy":
+            # names= on a lazy stack: fresh names / the members' own names around a stack-dim name / a stack-dim name that a
+            # member already uses / a list that is too short
+            mn = list(nm) if nm is not None else [None] * len(bs)
+            r_ = rng.random()
+            if r_ < 0.45:
+                o["names"] = ["p", "q", "r", "s"][:len(rbs)]
+            elif r_ < 0.7:
+                o["names"] = mn[:sd] + [rng.choice(["s", None])] + mn[sd:]
+            elif r_ < 0.85:
+                o["names"] = mn[:sd] + [(mn[0] if mn and mn[0] else "s")] + mn[sd:]
+            else:
+                o["names"] = ["p", "q", "r", "s"][:max(0, len(rbs) - 1)]
+            if all(n is None for n in o["names"]) and rng.random() < 0.5:
+                o["names"] = ["p", "q", "r", "s"][:len(rbs)]
     out = copy.deepcopy(scene["out"]) if has_out else None
     if dev_mode == "absent":
         o["dev"] = "absent"
@@ -240,12 +256,17 @@ def make_case(rng, point, scene, kindname, variant):
         case["others_members"] = copy.deepcopy(scene["others_members"][:n_others])
         # the representation of every other operand: a lazy stack along each batch dim (self's and the others), a dense
         # TensorDict, a tensorclass — member i of self is paired with the slice [i] along self's stack dim in every case
-        reps = [["lazy", d] for d in range(len(full_bs))] + [["lazy", 0], ["regular"], ["tc"]]
+        case["sd"] = sd
+        case["sd_name"] = rng.choice([None, None, "s"])
+        reps = [["lazy", d] for d in range(len(full_bs))] + [["lazy", sd], ["regular"], ["tc"]]
         case["others_repr"] = [rng.choice(reps) for _ in range(n_others)]
         for ms, rep in zip(case["others_members"], case["others_repr"]):
             if rep[0] == "tc" and not ms[0][3]:
                 rep[:] = ["regular"]            # a tensorclass needs at least one field
         case["out_members"] = copy.deepcopy(scene["out_members"]) if has_out else None
+        case["out_repr"] = rng.choice(["lazy"] * 14 + ["tc"] * 3 + ["other", "other", "short"]) if has_out else None
+        if case["out_repr"] == "tc" and not case["out_members"][0][3]:
+            case["out_repr"] = "lazy"
     if kindname == "alias":
         case["alias"] = {"out": has_out, "other": n_others > 0 and variant % 2 == 0}
         if has_out:
@@ -352,10 +373,11 @@ def run_real_(case, threads=None):
     res = {}
     try:
         if kindname == "lazy":
-            selfobj = I.build_lazy(case["members"], B)
-            reps = case.get("others_repr") or [["lazy", 0]] * len(case["others_members"])
-            others = [I.build_lazy_other(ms, rep, B) for ms, rep in zip(case["others_members"], reps)]
-            outobj = I.build_lazy(case["out_members"], B) if case["out"] is not None else None
+            sd_ = case.get("sd", 0)
+            selfobj = I.build_lazy(case["members"], B, sd_, case.get("sd_name"), I.LAZY_SELF_ID)
+            reps = case.get("others_repr") or [["lazy", sd_]] * len(case["others_members"])
+            others = [I.build_lazy_other(ms, rep, B, sd_) for ms, rep in zip(case["others_members"], reps)]
+            outobj = I.build_lazy_out(case["out_members"], case.get("out_repr") or "lazy", B, sd_) if case["out"] is not None else None
         else:
             selfobj = I.build_operand(case["self"], kindname, B, "self")
             others = [I.build_operand(t, kindname, B, "other") for t in case["others"]]
@@ -389,6 +411,7 @@ def run_real_(case, threads=None):
             res["ret"] = "cyclic"
         if res["ret_type"] == "lazy":
             res["ret_members"] = [I.obs(m, B) for m in ret.tensordicts]
+            res["ret_lazy"] = [I.ident(B, ret), ret.stack_dim, ret._td_dim_name]
     except RecursionError:
         res["outcome"] = "raise"
         res["exc"] = "RecursionError"
@@ -450,7 +473,7 @@ def names_sx(o):
         return Sym("absent")
     if o["names"] is None:
         return Sym("none")
-    return [Sym("some"), [[Sym("some"), n] for n in o["names"]]]
+    return [Sym("some"), [([Sym("some"), n] if n is not None else Sym("none")) for n in o["names"]]]
 
 
 def model_nones(case, trees):
@@ -475,18 +498,35 @@ def model_line(case, ran=None):
     kindname = case["kind"]
     if kindname == "alias":
         return None
-    if kindname == "lazy" and case["front"] == "apply_":
-        return None
     if kindname == "lazy":
-        has_out_fwd = case["out"] is not None
-        if case["threads"] or (o["bs"] is not None and not has_out_fwd) or o["names"] != "absent":
-            return None                    # (names= on a lazy stack goes through the lazy names setter: not modelled)
-        om = dict(o, bs=None)              # batch_size= is not forwarded to the members
-        return sx([Sym("lazy"), opts_sx(om), [tree_sx(m) for m in case["members"]],
-                   [[tree_sx(m) for m in ms] for ms in case["others_members"]],
-                   Sym("none") if not has_out_fwd else [Sym("some"), [tree_sx(m) for m in case["out_members"]]],
-                   names_sx(o), o["con"], model_nones(case, case["members"]),
-                   Sym("absent") if o["bs"] is None else list(o["bs"]), o["propagate"]])
+        sd = case.get("sd", 0)
+        nmem = len(case["members"])
+        mbs = case["members"][0][2][0]
+        full_bs = list(mbs[:sd]) + [nmem] + list(mbs[sd:])
+        mode = "apply_" if case["front"] == "apply_" else ("mt" if case["threads"] else "st")
+        reps = case.get("others_repr") or [["lazy", sd]] * len(case["others_members"])
+        ops = []
+        for ms, rep in zip(case["others_members"], reps):
+            sl = [tree_sx(m) for m in ms]
+            if rep[0] == "lazy":
+                # the members of a lazy operand stacked along another dim are not slices along sd: a faithful model never
+                # reads them (the dummy list)
+                lz = [Sym("some"), [rep[1], sl if rep[1] == sd else []]]
+            else:
+                lz = Sym("none")
+            ops.append([lz, full_bs, sl])
+        if case["out"] is None:
+            out = Sym("none")
+        else:
+            rep = case.get("out_repr") or "lazy"
+            oms = case["out_members"][:-1] if rep == "short" else case["out_members"]
+            out = [Sym("some"), Sym("other")] if rep == "other" else [Sym("some"), [Sym("lazy"), rep == "tc", [tree_sx(m) for m in oms]]]
+        k = sum(1 for _ in I.walk(case["self"])) * nmem
+        pi = list(ran) if ran else list(range(k))
+        name = case.get("sd_name")
+        return sx([Sym("lz"), Sym(mode), opts_sx(o),
+                   [I.LAZY_SELF_ID, sd, Sym("none") if name is None else [Sym("some"), name], [tree_sx(m) for m in case["members"]]],
+                   ops, out, names_sx(o), o["con"], o["propagate"], model_nones(case, case["members"]), pi])
     if kindname == "sub" and o["checked"]:
         # a _SubTensorDict always writes through result.set(...), i.e. validated: modelled as checked=False (except for the
         # device / out= branch, which reads `checked` itself: not modelled there)
@@ -572,7 +612,11 @@ def model_obs(case, m):
     if case["kind"] == "lazy":
         if r == "none":
             return {"outcome": "ok", "ret": None}
-        return {"outcome": "ok", "members": [ev.tree(t) for t in r[1:]]}
+        if r[0] == "view":
+            m_ = ev.meta(r[1])
+            return {"outcome": "ok", "view": [m_[0], m_[1]]}
+        return {"outcome": "ok", "members": [ev.tree(t) for t in r[4]],
+                "lazy": [r[1] if r[1] == "new" else ["o", r[1][1]], r[2], None if r[3] == "none" else r[3][1]]}
     if r == "none":
         return {"outcome": "ok", "ret": None}
     return {"outcome": "ok", "ret": ev.tree(r[1])}
@@ -662,17 +706,22 @@ def frame_unchanged(before, after):
 def dense_view(case):
     """the stacked view of a lazy case as a regular abstract case (ids of member 0; tensors = stacks over the members)"""
     n = len(case["members"])
+    sd = case.get("sd", 0)
+
+    def ins(bs):
+        return list(bs[:sd]) + [n] + list(bs[sd:])
 
     def lift(t):
         if t[0] == "L":
             return t
         if t[0] == "T":
-            return ["T", t[1], t[2], [[n] + list(t[3][0])] + list(t[3][1:])]
-        return ["N", t[1], [[n] + list(t[2][0])] + list(t[2][1:]), [[k, lift(c)] for k, c in t[3]]]
+            return ["T", t[1], t[2], [ins(t[3][0])] + list(t[3][1:])]
+        return ["N", t[1], [ins(t[2][0])] + list(t[2][1:]), [[k, lift(c)] for k, c in t[3]]]
     c = dict(case, kind="regular", self=lift(case["members"][0]), others=[lift(ms[0]) for ms in case["others_members"]], out=None)
 
     def tens(z, bs):
-        return torch.stack([I.leaf_tensor(z + i, bs[1:]) for i in range(n)], 0)
+        mb = list(bs[:sd]) + list(bs[sd + 1:])
+        return torch.stack([I.leaf_tensor(z + i, mb) for i in range(n)], sd)
     return c, tens
 
 
@@ -681,6 +730,8 @@ def lazy_reference(case):
     stacked view (batch_size override: a regular tensordict is returned)"""
     o = case["opts"]
     has_out = case["out"] is not None
+    if has_out and (case.get("out_repr") or "lazy") in ("other", "short"):
+        return ("gray", "out= of a lazy stack is not a lazy stack / has fewer members")
     if o["inplace"]:
         truthy = bool(o["bs"]) or (o["dev"] not in ("absent", None)) or bool(o["names"] not in ("absent", None) and o["names"])
         given = o["bs"] is not None or o["dev"] != "absent" or o["names"] != "absent"
@@ -729,7 +780,7 @@ def effective(case):
     return case
 
 
-def check_lazy_apply_(case):
+def check_lazy_apply_(case, mres=None):
     """LazyStackedTensorDict.apply_ is a function of its own (each member's _fast_apply(inplace=True)): the members are
     re-written in place and self is returned — oracle only"""
     fails, cnt = [], {}
@@ -765,7 +816,20 @@ def check_lazy_apply_(case):
                     break
     if real.get("after") and real["before"]["others"] != real["after"]["others"]:
         fails.append(("frame:other-operand-modified", case, {}, dict(sig, kind="frame-others")))
-    return fails, [], cnt, real
+    mism = []
+    if mres is not None:
+        mo = model_obs(case, mres)
+        if mo["outcome"] == "unmodelled":
+            cnt["model:unmodelled"] = 1
+        elif mo["outcome"] in ("decode-error", "stuck"):
+            mism.append(("model:" + mo["outcome"], case, summarize(real), mres))
+        else:
+            cnt["model:compared"] = 1
+            cnt["model:compared lazy apply_"] = 1
+            io = impl_obs_for_model(case, real)
+            if not same_obs(io, mo):
+                mism.append(("apply_:result", case, io, mo))
+    return fails, mism, cnt, real
 
 
 def check_case(case, mres):
@@ -774,7 +838,7 @@ def check_case(case, mres):
     o = case["opts"]
     kindname = case["kind"]
     if kindname == "lazy" and case["front"] == "apply_":
-        return check_lazy_apply_(case)
+        return check_lazy_apply_(case, mres)
 
     def count(k):
         cnt[k] = cnt.get(k, 0) + 1
@@ -914,8 +978,9 @@ def check_case(case, mres):
         frame(mt, "mt")
         if mt["outcome"] != "ok" and st["outcome"] != "ok":
             count("mt-vs-st:both-raise")           # which exception comes first is not promised
-        elif kindname == "lazy" and (o["bs"] is not None or o["names"] != "absent" or has_out or o["dev"] != "absent"):
-            count("mt-vs-st:gray lazy stack with batch_size= / names= / device= / out= in a thread pool")
+        elif kindname == "lazy" and (o["bs"] is not None or (has_out and (case.get("out_repr") or "lazy") in ("other", "short"))):
+            # _multithread_apply_nest of a lazy stack refuses batch_size= (documented by its message)
+            count("mt-vs-st:gray lazy stack with batch_size= / an out= that is not a lazy stack in a thread pool")
         elif hard_gray:
             count("mt-vs-st:gray")
         elif kindname == "sub" and o["checked"]:
@@ -951,8 +1016,12 @@ def check_case(case, mres):
                 count("model:not-compared (gray in-place write on a view / wrapper)")
             elif kindname == "params" and inplace and mo.get("outcome") == "ok" and mo.get("ret") is None and io.get("ret") is not None:
                 count("model:params wrapper returns self for None")
+            elif "view" in mo and "view" not in io:
+                count("model:stacked view delegated, call did not return a tensordict")
             elif not same_obs(io, mo, loose):
                 mism.append(("apply:result", case, io, mo))
+            elif kindname == "lazy":
+                count("model:compared lazy " + ("view" if "view" in mo else "mt" if case["threads"] else "st"))
     else:
         count("model:not-applicable")
     return fails, mism, cnt, real
@@ -990,9 +1059,12 @@ def same_obs(io, mo, loose=False):
         return io.get("outcome") == "cyclic" or (io.get("outcome") == "raise" and io.get("exc") in ("ValueError", "RecursionError"))
     if io.get("outcome") != mo.get("outcome") or io.get("exc") != mo.get("exc"):
         return False
+    if "view" in io or "view" in mo:
+        return io.get("view") == mo.get("view")
     if "members" in io or "members" in mo:
         a, b = io.get("members"), mo.get("members")
-        return a is not None and b is not None and len(a) == len(b) and all(same_tree(x, y) for x, y in zip(a, b))
+        return a is not None and b is not None and len(a) == len(b) and all(same_tree(x, y) for x, y in zip(a, b)) \
+            and io.get("lazy") == mo.get("lazy")
     return same_tree(io.get("ret"), mo.get("ret"))
 
 
@@ -1012,7 +1084,9 @@ def impl_obs_for_model(case, real):
     if case["kind"] == "lazy":
         if real["ret"] is None:
             return {"outcome": "ok", "ret": None}
-        return {"outcome": "ok", "members": real.get("ret_members")}
+        if real.get("ret_type") == "td":
+            return {"outcome": "ok", "view": [real["ret"][2][0], real["ret"][2][1]]}
+        return {"outcome": "ok", "members": real.get("ret_members"), "lazy": real.get("ret_lazy")}
     return {"outcome": "ok", "ret": real["ret"]}
 
 
@@ -1033,6 +1107,8 @@ def mt_patterns(case):
     if case["out"] is not None and not o["inplace"] and not o["leaf_nont"] and \
             any(e[0] == "T" and not (o["con"] and len(p) == 1) for p, e in I.walk(case["self"]) if p):
         f["out_nontensor"] = True
+    if case["kind"] == "lazy" and case["out"] is not None and case.get("out_repr") == "tc":
+        f["lazy_out_tc"] = True
     return f
 
 
